@@ -117,8 +117,19 @@ func c06Pass(env *lib.Env, rep *lib.Report, r *queryRunner, deep bool) {
 			// three atoms where the grouping of AND and OR decides the answer: (p AND q) OR r, p OR (q AND r)
 			{atoms: []qAtom{{qc(a, "k"), qc(b, "k"), "="}, {qc(b, kb), ql(int64(100)), ">"}, {qc(a, "k"), ql(int64(2)), "="}}, ors: []bool{false, true}},
 			{atoms: []qAtom{{qc(a, "k"), ql(int64(2)), "="}, {qc(a, "k"), qc(b, "k"), "="}, {qc(b, kb), ql(int64(100)), ">"}}, ors: []bool{true, false}},
+			// (from here on: single joins only in the quick tier)
+			// the bare boolean literals, alone and next to a comparison
+			{atoms: []qAtom{{l: ql(true)}}},
+			{atoms: []qAtom{{l: ql(false)}}},
+			{atoms: []qAtom{{qc(a, "k"), qc(b, "k"), "="}, {l: ql(true)}}, ors: []bool{false}},
+			{atoms: []qAtom{{l: ql(false)}, {qc(a, "k"), qc(b, "k"), "="}}, ors: []bool{true}},
+			// chains of three and four terms under one connective (a pair of rows may satisfy a middle term only)
+			{atoms: []qAtom{{qc(a, "k"), ql(int64(100)), "="}, {qc(a, "k"), qc(b, "k"), "="}, {qc(b, kb), ql(int64(100)), ">"}}, ors: []bool{true, true}},
+			{atoms: []qAtom{{qc(a, "k"), ql(int64(100)), "="}, {qc(b, kb), ql(int64(100)), ">"}, {qc(a, "k"), qc(b, "k"), "="}, {qc(b, "k"), ql(int64(100)), "="}}, ors: []bool{true, true, true}},
+			{atoms: []qAtom{{qc(a, "k"), ql(int64(100)), "<"}, {qc(a, "k"), qc(b, "k"), "="}, {qc(b, "k"), ql(int64(100)), "<"}}, ors: []bool{false, false}},
 		}
 	}
+	const c06BaseConds = 13
 	type tchoice struct{ table, alias string }
 	firsts := []tchoice{{"t", ""}, {"t", "x"}}
 	// (aliases that differ from another table id only in letter case are still different ids)
@@ -137,10 +148,10 @@ func c06Pass(env *lib.Env, rep *lib.Report, r *queryRunner, deep bool) {
 				continue
 			}
 			for _, k1 := range kinds {
-				for _, on1 := range onConds(id(f), id(s), s.table) {
+				for oi1, on1 := range onConds(id(f), id(s), s.table) {
 					one := c06From{joins: []qJoin{{table: f.table, alias: f.alias}, {kind: k1, table: s.table, alias: s.alias, on: on1}}, ids: []string{id(f), id(s)}, names: []string{f.table, s.table}}
 					froms = append(froms, one)
-					if !deep && (k1 == "JOIN" || len(on1.atoms) > 1 && on1.ors[0]) {
+					if !deep && (k1 == "JOIN" || len(on1.atoms) > 1 && on1.ors[0] || oi1 >= c06BaseConds) {
 						continue // the two-join chains use three join spellings and a smaller ON set in the quick tier
 					}
 					for thi, th := range thirds {
@@ -192,7 +203,7 @@ func c06Pass(env *lib.Env, rep *lib.Report, r *queryRunner, deep bool) {
 		}
 	}
 	rep.Bounds["FROM clauses with a repeated table id"] = fmt.Sprintf("%d (unaliased self-join, two tables under one alias, the same table twice under one alias, an alias equal to another table's name, t JOIN u JOIN t; ON 1 = 1 and ON k = 1): SELECT k and ON k = 1 must be rejected", nDup)
-	rep.Bounds["FROM clauses"] = fmt.Sprintf("%d join chains (1..2 joins; INNER JOIN / JOIN / LEFT JOIN / RIGHT JOIN; self-joins under aliases; 13 ON conditions incl. ordering comparisons with the literal on the left, an ambiguous unqualified name behind AND / OR, AND/OR, mixed AND/OR of three atoms and constants)", len(froms))
+	rep.Bounds["FROM clauses"] = fmt.Sprintf("%d join chains (1..2 joins; INNER JOIN / JOIN / LEFT JOIN / RIGHT JOIN; self-joins under aliases; 20 ON conditions incl. the bare literals TRUE / FALSE, chains of three and four terms under one connective, ordering comparisons with the literal on the left, an ambiguous unqualified name behind AND / OR, AND/OR, mixed AND/OR of three atoms and constants)", len(froms))
 	cT, cU, cV := c06Contents("t"), c06Contents("u"), c06Contents("v")
 	rep.Bounds["table contents"] = fmt.Sprintf("%d x %d x %d: all multisets of <= 2 rows over keys {1,2} per table (empty sides, duplicate keys); for t and u also two contents whose second row has NULL in every non-key column", len(cT), len(cU), len(cV))
 	rep.Bounds["select lists per FROM"] = "*; all columns qualified by table id; unqualified unique column; unqualified ambiguous column k (must be rejected); column qualified by the table name although an alias exists (must be rejected)"
